@@ -23,6 +23,7 @@ THEOREMS = ['C02_refract_unit', 'C02_refract_snell', 'C02_refract_halfspace', 'C
             'C02_trace_surface_is_regenerated_plumbing', 'C02_trace_is_regenerated_plumbing', 'C02_frame_change_is_regenerated_plumbing', 'C02_repo_lists_def']
 TRUSTED_BASE = BASE_TRUSTED + [
     'modelled, not verified: material.n(w) values are inputs of the trace model (C18 covers them)',
+    'hand model coq/Model/Trace.v: proved equal to the execution (coq/Model/Plumb.v) of the plumbing lists regenerated from the source by tools/py2coq_plumb.py (statement-pattern table, fail-closed) and tied by per-surface correspondence of the recorded rays',
 ]
 RULE = ('kernel cases: seeded random unit directions/normals, index pairs in [1,4], radii of both signs, '
         'conics incl. 0/-1, axis-parallel rays (a==0 branch), misses and TIR (~15%); non-trivial = finite result')
@@ -95,6 +96,8 @@ def _lens_cases(ctx, nl, rays_per):
     hist = {'lenses': 0, 'build_errors': {}, 'trace_errors': {}, 'shapes': {}, 'mirrors': 0, 'tilted': 0,
             'finite_rays': 0, 'nonfinite_rays': 0}
     corp = lensgen.corpus()
+    _r2 = random.Random(ctx.seed * 7 + 3)        # own stream: the main stream stays as it was
+    corp += [lensgen.wide_hyperboloid_spec(_r2) for _ in range(4)]
     for li in range(nl + len(corp)):
         spec = corp[li] if li < len(corp) else lensgen.gen_spec(rng)
         if li >= len(corp):
@@ -151,7 +154,17 @@ def _lens_cases(ctx, nl, rays_per):
     return cases, hist
 
 
+def _plumbing_result(ctx):
+    """what tools/py2coq_plumb.py regenerated on this run (the theorems *_is_regenerated_plumbing are about these lists)"""
+    pl = {k: m for k, m in (getattr(ctx, 'manifests', None) or {}).items() if isinstance(m, dict) and m.get('plumbing')}
+    return {'name': 'plumbing-lists-regenerated-from-source (order and identity of the statements of _trace_real, _interact, '
+                    'localize, globalize, coating interact, group trace)',
+            'n': sum(len(m['steps']) for m in pl.values()), 'nontrivial': len(pl), 'samples': [],
+            'histogram': {k: ' ; '.join(m['steps']) for k, m in sorted(pl.items())}, 'disagreements': []}
+
+
 def system_checks(ctx):
+    yield _plumbing_result(ctx)
     import tracecorr, oracles
     nl, rp = ctx.n(40, 500), ctx.n(4, 8)
     cases, hist = _lens_cases(ctx, nl, rp)
